@@ -190,7 +190,11 @@ DoGenesis ==
 DoTwin ==
   /\ E0.ev = "Twin"
   /\ Conclude(TwinCheck(E0), StOf(IF E0.cont = "A" THEN E0.A.st ELSE E0.B.st))
-  /\ cls' = (LET c1 == Bump(cls, TwinClass(E0)) IN IF IsSigned(E0.ops[1]) THEN Bump(c1, ForgedKey(E0)) ELSE c1)
+  /\ cls' = (LET c1 == Bump(cls, TwinClass(E0))
+                 c2 == IF IsSigned(E0.ops[1]) THEN Bump(c1, ForgedKey(E0)) ELSE c1
+                 op == E0.ops[1]
+             \* a transfer() that succeeded although the liquid balance alone did not cover it: funded by the rewards it claimed
+             IN IF op.m = "transfer" /\ E0.A.ok /\ E0.B.ok /\ op.amt > S.bal[E0.caller] THEN Bump(c2, "transfer-funded-by-claimed-rewards/" \o E0.via) ELSE c2)
   /\ nTwins' = nTwins + 1
   /\ UNCHANGED cf
 
